@@ -1,4 +1,31 @@
-"""C19 — kernel property: see DESIGN.md section 5 and harness/kprop.py."""
+"""C19 — kernel property: see DESIGN.md section 5 and harness/kprop.py.
+
+Four parts (all run by `run`):
+ 1. kernel correspondence + views oracle (harness/kprop.py, koracle.c19_views) on the feature templates of kgen;
+ 2. `meta_views`: class-graph edit histories, every view against Model/MetaViews.v and an independent closure;
+ 3. `subtree_scenarios` (implementation only, PRNG stream 'C19:subtrees'): random class hierarchies in which
+    SUBCLASSES add containment references, so that a containment slot whose declared type (a base class, or
+    EObject) has no containment reference of its own holds instances that do have children; random trees are
+    built and rearranged through every public access path (attribute syntax, eGet/eSet by name and by feature
+    object, collection methods), containment references are added to classes at run time, and after EVERY
+    mutation eContents / eAllContents / eRoot of every object are compared with a computation that reads only
+    the primary feature values (through eGet) and follows the class description kept by the generator.  The
+    kernel model (Kernel.v) has one class per template and no subclassing of slot types: this family is
+    oracle-only;
+ 4. `meta_clash_scenarios` (PRNG stream 'C19:metaclash'): class graphs with multiple inheritance whose feature
+    NAMES come from a pool of three, so that the same name is declared in unrelated branches at different
+    depths, edited at run time (eSuperTypes append/remove, features added/removed).  Names are unique inside
+    one class (two features of one name in one eStructuralFeatures list share one Python descriptor slot; not
+    generated).  Model/MetaViews.v defines `find_feat` as the first declaration of that name in the depth-first
+    generator order, with or without clashes, so the model tie (all five views) is kept on these graphs too.
+    The part that is ORACLE-ONLY is the agreement of findEStructuralFeature with the declaration that
+    attribute syntax / eGet / eSet by name really use on a fresh instance (the Python class linearisation is
+    not in the model): a value of the FOUND feature's type is stored through one access path and read back
+    through another, and eIsSet(found) must hold.  Where Python's C3 order and pyecore's depth-first order
+    pick different declarations (a name redeclared in a non-first branch of a diamond) the unchanged code
+    disagrees with itself: known finding F-C19-find-vs-mro (signature linearisations='differ'); everywhere
+    else (linearisations='agree') the views must agree.
+"""
 from harness import kgen, kprop
 
 PID = 'C19'
@@ -9,8 +36,16 @@ def run(ctx, out):
 
 
 def replay(ctx, rep):
-    from harness import krun
+    from harness import krun, common
     case = rep['case']
+    if case.get('scenario') == 'metaclash':
+        # the history of a class-graph case is self-contained: it is replayed literally (every access-path pair);
+        # generator cases are also re-generated from their seed
+        if metaclash_script(case):
+            return 1
+        return common.scenario_replay(ctx, rep, {'metaclash': meta_clash_scenarios}) if 'seed' in case else 0
+    if case.get('scenario'):
+        return common.scenario_replay(ctx, rep, {'subtrees': subtree_scenarios})
     r = krun.Run(case, ['C19']).run()
     for s in r.steps:
         print(s['op'], '->', s['outcome'])
@@ -175,3 +210,659 @@ _kernel_run = run
 def run(ctx, out):   # noqa: F811
     _kernel_run(ctx, out)
     meta_views(ctx, out)
+
+
+# ---------------------------------------------------------------------------
+# shared helpers of the two implementation-side scenario families
+
+def _plain_mro(sup, n):
+    """Python's own linearisation of the class graph, on plain classes (independent of pyecore);
+    None when Python refuses the graph (cycle, inconsistent MRO): such graphs are not generated"""
+    built = {}
+
+    def mk(i, seen=()):
+        if i in built:
+            return built[i]
+        if i in seen:
+            raise TypeError('cycle')
+        bases = tuple(mk(j, seen + (i,)) for j in sup[i]) or (object,)
+        built[i] = type(f'K{i}', bases, {'_k': i})
+        return built[i]
+    try:
+        for i in range(n):
+            mk(i)
+    except TypeError:
+        return None
+    return {i: [k.__dict__['_k'] for k in built[i].__mro__ if '_k' in k.__dict__] for i in range(n)}
+
+
+def _dfs(sup, c):
+    """the class, then each direct supertype's walk, left to right (duplicates kept)"""
+    out = [c]
+    for d in sup[c]:
+        out += _dfs(sup, d)
+    return out
+
+
+# ---------------- 3. containment trees through slots typed by a base class ----------------
+MANY_IN = ['append', 'insert0', 'extend', 'eGet-name.append', 'eGet-feature.append', 'iadd']
+ONE_IN = ['attr', 'eSet-name', 'eSet-feature']
+READS = ['attr', 'eGet-name', 'eGet-feature']
+
+
+def subtree_scenarios(ctx, out):
+    """see the module docstring, part 3"""
+    from harness import common
+    common.use_repo()
+    from pyecore import ecore as E
+    rng = common.rng_for(ctx.seed, 'C19:subtrees')
+    n = 140 if ctx.tier != 'thorough' else 4000
+    st = {'models': 0, 'mutations': 0, 'views': 0, 'subtype_slot_views': 0, 'eobject_slot_views': 0,
+          'max_depth': 0, 'raised': 0, 'feature_added_at_run_time': 0}
+    sample = None
+    for it in range(n):
+        NK = rng.randrange(3, 7)
+        sup = {i: [] for i in range(NK)}
+        for i in range(1, NK):
+            if rng.random() < 0.8:
+                sup[i].append(rng.randrange(i))
+                if i >= 2 and rng.random() < 0.2:
+                    j = rng.randrange(i)
+                    trial = {k: list(v) for k, v in sup.items()}
+                    if j not in trial[i]:
+                        trial[i].append(j)
+                        if _plain_mro(trial, NK) is not None:
+                            sup = trial
+        K = []
+        for i in range(NK):
+            K.append(E.EClass(f'K{i}', superclass=tuple(K[j] for j in sup[i])))
+        anc = {i: set(_dfs(sup, i)) for i in range(NK)}          # reflexive
+        feats = []                                               # dicts: name owner target many containment
+        fobj = {}
+
+        def add_ref(owner, containment, target=None):
+            if target is None:
+                target = 'EObject' if rng.random() < 0.12 else min(rng.randrange(NK), rng.randrange(NK))
+            f = {'name': f'r{len(feats)}', 'owner': owner, 'target': target, 'many': rng.random() < 0.7,
+                 'containment': containment}
+            ref = E.EReference(f['name'], E.EObject if target == 'EObject' else K[target],
+                               upper=-1 if f['many'] else 1, containment=containment)
+            K[owner].eStructuralFeatures.append(ref)
+            feats.append(f)
+            fobj[f['name']] = ref
+            return f
+
+        for i in range(NK):
+            for _ in range(rng.choice([0, 0, 1]) if i == 0 else rng.choice([0, 1, 1, 2])):
+                add_ref(i, rng.random() < 0.75)
+        if not any(f['containment'] for f in feats):
+            add_ref(NK - 1, True, 0)
+
+        def feats_of(k, containment=None):
+            return [f for f in feats if f['owner'] in anc[k] and (containment is None or f['containment'] == containment)]
+
+        def can_contain(k):
+            return bool(feats_of(k, True))
+
+        def conforms(k, target):
+            return target == 'EObject' or target in anc[k]
+
+        objs, cls = [], []
+        hist = [['mm', it, {'supers': {str(k): v for k, v in sup.items()}, 'features': [dict(f) for f in feats]}]]
+
+        def new(k):
+            objs.append(K[k]())
+            cls.append(k)
+            return len(objs) - 1
+
+        def read(x, f, path):
+            o = objs[x]
+            v = getattr(o, f['name']) if path == 'attr' else o.eGet(f['name']) if path == 'eGet-name' else o.eGet(fobj[f['name']])
+            if f['many']:
+                return list(v)
+            return [] if v is None else [v]
+
+        def idx(o):
+            for i, p in enumerate(objs):
+                if p is o:
+                    return i
+            return repr(o)
+
+        def primary():
+            """children per object, from the primary values only"""
+            kids = {}
+            for x in range(len(objs)):
+                kids[x] = []
+                for f in feats_of(cls[x], True):
+                    kids[x] += [(idx(v), f) for v in read(x, f, rng.choice(READS))]
+            return kids
+
+        def below(kids, x, seen=None):
+            seen = set() if seen is None else seen
+            res = []
+            for (c, _) in kids[x]:
+                if c in seen or not isinstance(c, int):
+                    continue
+                seen.add(c)
+                res.append(c)
+                res += below(kids, c, seen)
+            return res
+
+        def put(h, f, x, path):
+            o, v, nm = objs[h], objs[x], f['name']
+            try:
+                if f['many']:
+                    if path == 'append':
+                        getattr(o, nm).append(v)
+                    elif path == 'insert0':
+                        getattr(o, nm).insert(0, v)
+                    elif path == 'extend':
+                        getattr(o, nm).extend([v])
+                    elif path == 'eGet-name.append':
+                        o.eGet(nm).append(v)
+                    elif path == 'eGet-feature.append':
+                        o.eGet(fobj[nm]).append(v)
+                    else:
+                        c = getattr(o, nm)
+                        c += [v]
+                elif path == 'attr':
+                    setattr(o, nm, v)
+                elif path == 'eSet-name':
+                    o.eSet(nm, v)
+                else:
+                    o.eSet(fobj[nm], v)
+                return None
+            except Exception as e:  # noqa  (what a store may refuse is C03's subject; the views are checked anyway)
+                st['raised'] += 1
+                return type(e).__name__
+
+        def check():
+            """every view of every object against the primary values"""
+            kids = primary()
+            parent = {}
+            for x in kids:
+                for (c, f) in kids[x]:
+                    if isinstance(c, int):
+                        parent[c] = (x, f)
+            case = {'scenario': 'subtrees', 'seed': ctx.seed, 'tier': ctx.tier, 'history': [list(h) for h in hist]}
+            for x in range(len(objs)):
+                o = objs[x]
+                st['views'] += 1
+                # access paths are interchangeable
+                for f in feats_of(cls[x]):
+                    a, b, c = (sorted(map(str, map(idx, read(x, f, p)))) for p in READS)
+                    if not (a == b == c):
+                        out.fail({'property': 'C19', 'clause': 'access-paths', 'scenario': 'subtrees'},
+                                 f'obj{x}.{f["name"]}: attribute syntax {a}, eGet(name) {b}, eGet(feature) {c} after {hist[-1]}', case)
+                        return False
+                want = sorted(str(c) for (c, _) in kids[x])
+                got = sorted(str(idx(v)) for v in o.eContents)
+                if got != want:
+                    out.fail({'property': 'C19', 'clause': 'econtents', 'scenario': 'subtrees'},
+                             f'obj{x} (K{cls[x]}).eContents = {got} but its containment references hold {want} after {hist[-1]}', case)
+                    return False
+                desc = below(kids, x)
+                try:
+                    allc = [idx(v) for v in o.eAllContents()]
+                except RecursionError:
+                    allc = ['<RecursionError>']
+                if sorted(map(str, allc)) != sorted(map(str, desc)):
+                    kind = ('duplicate' if len(set(map(str, allc))) != len(allc) else
+                            'missing' if set(map(str, desc)) - set(map(str, allc)) else 'extra')
+                    # where is the first missing object held?
+                    hint = ''
+                    miss = [d for d in desc if d not in allc]
+                    if miss:
+                        px, pf = parent[miss[0]]
+                        hx = parent.get(px)
+                        hint = (f'; obj{miss[0]} (K{cls[miss[0]]}) is held by obj{px} (K{cls[px]}).{pf["name"]}'
+                                + (f', itself held by obj{hx[0]}.{hx[1]["name"]} declared with type '
+                                   f'{hx[1]["target"] if hx[1]["target"] == "EObject" else "K" + str(hx[1]["target"])}' if hx else ''))
+                    out.fail({'property': 'C19', 'clause': 'eallcontents', 'kind': kind, 'scenario': 'subtrees'},
+                             f'obj{x} (K{cls[x]}).eAllContents() = {allc} but the objects transitively held by containment '
+                             f'references are {desc}{hint} after {hist[-1]}', case)
+                    return False
+                if len(set(allc)) != len(allc):
+                    out.fail({'property': 'C19', 'clause': 'eallcontents', 'kind': 'duplicate', 'scenario': 'subtrees'},
+                             f'obj{x}.eAllContents() = {allc} yields an object twice after {hist[-1]}', case)
+                    return False
+                # eRoot: end of the eContainer() chain, and end of the chain of holders read from the slots
+                end, hops = o, 0
+                while end.eContainer() is not None and hops < 100:
+                    end, hops = end.eContainer(), hops + 1
+                top, hops2 = x, 0
+                while top in parent and hops2 < 100:
+                    top, hops2 = parent[top][0], hops2 + 1
+                st['max_depth'] = max(st['max_depth'], hops2)
+                r = o.eRoot()
+                if r is not end or r is not objs[top]:
+                    out.fail({'property': 'C19', 'clause': 'eroot', 'scenario': 'subtrees'},
+                             f'obj{x}.eRoot() = obj{idx(r)}, the eContainer() chain ends at obj{idx(end)}, the holders '
+                             f'read from the containment slots end at obj{top} after {hist[-1]}', case)
+                    return False
+                # coverage: a child with children of its own, sitting in a slot whose declared type cannot contain
+                if x in parent and kids[x]:
+                    t = parent[x][1]['target']
+                    if t == 'EObject':
+                        st['eobject_slot_views'] += 1
+                    elif not can_contain(t):
+                        st['subtype_slot_views'] += 1
+            return True
+
+        for _ in range(rng.randrange(1, 4)):
+            new(rng.randrange(NK))
+        ok = check()
+        steps = rng.randrange(4, 14)
+        for step in range(steps):
+            if not ok:
+                break
+            r = rng.random()
+            kids = primary()
+            holders = [(h, f) for h in range(len(objs)) for f in feats_of(cls[h], True)]
+            if r < 0.5 and holders:
+                h, f = rng.choice(holders)
+                # prefer to grow below the object added last, and prefer classes that can contain (depth)
+                if rng.random() < 0.5:
+                    deep = [(hh, ff) for (hh, ff) in holders if hh == len(objs) - 1]
+                    if deep:
+                        h, f = rng.choice(deep)
+                ks = [k for k in range(NK) if conforms(k, f['target'])]
+                rich = [k for k in ks if can_contain(k)]
+                k = rng.choice(rich) if rich and rng.random() < 0.7 else rng.choice(ks)
+                x = new(k)
+                path = rng.choice(MANY_IN if f['many'] else ONE_IN)
+                hist.append(['new-child', h, f['name'], k, path, put(h, f, x, path)])
+            elif r < 0.72 and holders and len(objs) > 1:
+                x = rng.randrange(len(objs))
+                sub = set(below(kids, x)) | {x}
+                cands = [(h, f) for (h, f) in holders if h not in sub and conforms(cls[x], f['target'])]
+                if not cands:
+                    continue
+                h, f = rng.choice(cands)
+                path = rng.choice(MANY_IN if f['many'] else ONE_IN)
+                hist.append(['move', x, h, f['name'], path, put(h, f, x, path)])
+            elif r < 0.84:
+                held = [(x, c, f) for x in kids for (c, f) in kids[x] if isinstance(c, int)]
+                if not held:
+                    continue
+                x, c, f = rng.choice(held)
+                raised = None
+                try:
+                    if f['many']:
+                        how = rng.choice(['remove', 'pop'])
+                        coll = objs[x].eGet(f['name'])
+                        if how == 'remove':
+                            coll.remove(objs[c])
+                        else:
+                            coll.pop()
+                    else:
+                        how = rng.choice(ONE_IN)
+                        if how == 'attr':
+                            setattr(objs[x], f['name'], None)
+                        elif how == 'eSet-name':
+                            objs[x].eSet(f['name'], None)
+                        else:
+                            objs[x].eSet(fobj[f['name']], None)
+                except Exception as e:  # noqa
+                    raised = type(e).__name__
+                    st['raised'] += 1
+                hist.append(['take-out', x, f['name'], c, how, raised])
+            elif r < 0.9:
+                hist.append(['new-root', new(rng.randrange(NK))])
+            elif r < 0.95:
+                plain = [(h, f) for h in range(len(objs)) for f in feats_of(cls[h], False)]
+                if not plain:
+                    continue
+                h, f = rng.choice(plain)
+                xs = [x for x in range(len(objs)) if conforms(cls[x], f['target'])]
+                if not xs:
+                    continue
+                x = rng.choice(xs)
+                path = rng.choice(MANY_IN if f['many'] else ONE_IN)
+                hist.append(['link', h, f['name'], x, path, put(h, f, x, path)])
+            else:
+                f = add_ref(rng.randrange(NK), True)
+                st['feature_added_at_run_time'] += 1
+                hist.append(['add-containment-reference', dict(f)])
+            st['mutations'] += 1
+            ok = check()
+        st['models'] += 1
+        if sample is None and ok and len(hist) > 6:
+            sample = {'scenario': 'subtrees', 'history': [list(h) for h in hist]}
+    out.coverage['subtree_models'] = st['models']
+    out.coverage['subtree_mutations'] = st['mutations']
+    out.coverage['subtree_object_views_checked'] = st['views']
+    out.coverage['subtree_views_child_with_children_in_slot_typed_by_class_without_containment'] = st['subtype_slot_views']
+    out.coverage['subtree_views_child_with_children_in_slot_typed_EObject'] = st['eobject_slot_views']
+    out.coverage['subtree_max_depth'] = st['max_depth']
+    out.coverage['subtree_containment_references_added_at_run_time'] = st['feature_added_at_run_time']
+    out.coverage['subtree_stores_refused'] = st['raised']
+    out.coverage['subtree_sample'] = sample
+
+
+# ---------------- 4. feature names clashing between branches of a multiple-inheritance graph ----------------
+NAME_POOL = ['label', 'size', 'kind']
+FKINDS = ['str', 'int', 'strs', 'ref', 'refs']
+
+
+def meta_clash_scenarios(ctx, out):
+    """see the module docstring, part 4"""
+    import os
+    from harness import common
+    common.use_repo()
+    from pyecore import ecore as E
+    rng = common.rng_for(ctx.seed, 'C19:metaclash')
+    model = common.Model() if os.path.exists(os.path.join(common.BUILD, 'modelrun')) else None
+    n = 110 if ctx.tier != 'thorough' else 2500
+    st = {'graphs': 0, 'edits': 0, 'queries': 0, 'clash_lookups': 0, 'clash_lookups_across_branches': 0,
+          'probes': 0, 'lin_differ': 0, 'model_compared': 0}
+    sample = None
+    for gi in range(n):
+        ncls = rng.randrange(3, 7)
+        classes = [E.EClass(f'K{i}') for i in range(ncls)]
+        sup = {i: [] for i in range(ncls)}
+        own = {i: [] for i in range(ncls)}       # (fid, isref, name)
+        kind = {}                                # fid -> (kind, target class)
+        fobj = {}
+        nextf = [0]
+        hist = [['graph', gi, ncls]]
+        state = {'ok': True}
+
+        def add_feature(c):
+            free = [nm for nm in NAME_POOL if nm not in [t[2] for t in own[c]]]
+            fid = nextf[0]
+            if free and rng.random() < 0.75:
+                name = rng.choice(free)
+            else:
+                name = f'g{fid}'
+            nextf[0] += 1
+            k = rng.choice(FKINDS)
+            t = rng.randrange(ncls)
+            if k == 'str':
+                f = E.EAttribute(name, E.EString)
+            elif k == 'int':
+                f = E.EAttribute(name, E.EInt)
+            elif k == 'strs':
+                f = E.EAttribute(name, E.EString, upper=-1)
+            else:
+                f = E.EReference(name, classes[t], upper=-1 if k == 'refs' else 1)
+            classes[c].eStructuralFeatures.append(f)
+            own[c].append((fid, k in ('ref', 'refs'), name))
+            kind[fid] = (k, t)
+            fobj[fid] = f
+            hist.append(['add-feature', c, name, k, t])
+
+        def try_super(c, d):
+            if d == c or d in sup[c] or c in _closure(sup, d):
+                return False
+            trial = {k: list(v) for k, v in sup.items()}
+            trial[c].append(d)
+            if _plain_mro(trial, ncls) is None:
+                return False                  # Python would refuse the linearisation (C12's subject)
+            classes[c].eSuperTypes.append(classes[d])
+            sup[c].append(d)
+            hist.append(['add-super', c, d])
+            return True
+
+        def probe(c, nm, found_fid, where):
+            """store what the FOUND feature can hold through one path, read it back through another"""
+            ec, found = classes[c], fobj[found_fid]
+            k, t = kind[found_fid]
+            o = ec()
+            v = {'str': 'v', 'int': 7, 'strs': ['a', 'b']}.get(k)
+            if k == 'ref':
+                v = classes[t]()
+            elif k == 'refs':
+                v = [classes[t]()]
+            wpath = rng.choice(ONE_IN + (['eGet-name.extend'] if k in ('strs', 'refs') else []))
+            rpath = rng.choice(READS)
+            st['probes'] += 1
+            try:
+                if wpath == 'attr':
+                    setattr(o, nm, v)
+                elif wpath == 'eSet-name':
+                    o.eSet(nm, v)
+                elif wpath == 'eSet-feature':
+                    o.eSet(found, v)
+                else:
+                    o.eGet(nm).extend(v)
+            except Exception as e:  # noqa
+                return f'storing {v!r}, which the found feature ({k}) can hold, through {wpath} raised {type(e).__name__}'
+            try:
+                got = getattr(o, nm) if rpath == 'attr' else o.eGet(nm) if rpath == 'eGet-name' else o.eGet(found)
+                got = list(got) if k in ('strs', 'refs') else got
+            except Exception as e:  # noqa
+                return f'reading through {rpath} raised {type(e).__name__}'
+            same = (got is v) if k == 'ref' else (len(got) == 1 and got[0] is v[0]) if k == 'refs' else got == v
+            if not same:
+                return f'stored {v!r} through {wpath}, read {got!r} through {rpath}'
+            if not o.eIsSet(found) or not o.eIsSet(nm):
+                return (f'after storing through {wpath}: eIsSet(found feature) = {o.eIsSet(found)}, '
+                        f'eIsSet({nm!r}) = {o.eIsSet(nm)}')
+            return None
+
+        def check_all(where):
+            names = sorted({nm for c in own for (_, _, nm) in own[c]} | {'nope'})
+            nameid = {nm: i for i, nm in enumerate(names)}
+            fid_of = {id(f): k for k, f in fobj.items()}
+            cid_of = {id(c): k for k, c in enumerate(classes)}
+            nm_of = {fid: nm for d in own for (fid, _, nm) in own[d]}
+            isr = {fid: ir for d in own for (fid, ir, _) in own[d]}
+            mro = _plain_mro(sup, ncls)
+            r = None
+            if model is not None:
+                toks = [ncls]
+                for c in range(ncls):
+                    toks += [len(sup[c])] + sup[c] + [len(own[c])]
+                    for (fid, ir, nm) in own[c]:
+                        toks += [fid, int(ir), nameid[nm]]
+                toks += [nameid[nm] for nm in names]
+                r = iter(model.ask('metaviews', toks))
+            for c in range(ncls):
+                ec = classes[c]
+                case = {'scenario': 'metaclash', 'seed': ctx.seed, 'tier': ctx.tier, 'class': c,
+                        'history': [list(h) for h in hist]}
+                allf = list(ec.eAllStructuralFeatures())
+                found = [ec.findEStructuralFeature(nm) for nm in names]
+                impl = {
+                    'supers': [cid_of[id(x)] for x in ec.eAllSuperTypes()],
+                    'feats': [fid_of[id(x)] for x in allf],
+                    'refs': sorted(fid_of[id(x)] for x in ec.eAllReferences()),
+                    'attrs': sorted(fid_of[id(x)] for x in ec.eAllAttributes()),
+                    'find': [fid_of.get(id(f), -1) for f in found],
+                }
+                st['queries'] += 5
+                if r is not None:
+                    mod = {'supers': [next(r) for _ in range(next(r))], 'feats': [next(r) for _ in range(next(r))],
+                           'refs': sorted(next(r) for _ in range(next(r))), 'attrs': sorted(next(r) for _ in range(next(r))),
+                           'find': [next(r) for _ in names]}
+                    st['model_compared'] += 1
+                    if impl != mod:
+                        k = next(k for k in impl if impl[k] != mod[k])
+                        out.diff(f'metaviews (name clashes) {where}: class K{c} {k}: impl {impl[k]} model {mod[k]}', case)
+                # own + inherited declarations, each once
+                anc = _closure(sup, c)
+                want = sorted(fid for d in [c] + anc for (fid, _, _) in own[d])
+                clause = None
+                if sorted(impl['supers']) != sorted(anc) or len(set(impl['supers'])) != len(impl['supers']):
+                    clause = 'eAllSuperTypes'
+                elif sorted(impl['feats']) != want or len(set(impl['feats'])) != len(impl['feats']):
+                    clause = 'eAllStructuralFeatures'
+                elif impl['refs'] != sorted(f for f in want if isr[f]):
+                    clause = 'eAllReferences'
+                elif impl['attrs'] != sorted(f for f in want if not isr[f]):
+                    clause = 'eAllAttributes'
+                if clause:
+                    out.fail({'property': 'C19', 'clause': 'meta-' + clause, 'after': hist[-1][0], 'scenario': 'metaclash'},
+                             f'class K{c} {clause} disagrees with own+inherited declarations {want} after {hist[-3:]}: {impl}', case)
+                    state['ok'] = False
+                    return
+                for nm, got in zip(names, impl['find']):
+                    have = [f for f in want if nm_of[f] == nm]
+                    if not have:
+                        if got != -1:
+                            out.fail({'property': 'C19', 'clause': 'meta-findEStructuralFeature', 'kind': 'found-undeclared', 'scenario': 'metaclash'},
+                                     f'K{c}.findEStructuralFeature({nm!r}) gives feature {got}; no such name among own+inherited', case)
+                            state['ok'] = False
+                            return
+                        continue
+                    if got not in have:
+                        out.fail({'property': 'C19', 'clause': 'meta-findEStructuralFeature', 'kind': 'declared-not-found', 'scenario': 'metaclash'},
+                                 f'K{c}.findEStructuralFeature({nm!r}) gives {got}; own+inherited declarations of that name: {have}', case)
+                        state['ok'] = False
+                        return
+                    decl = {f: next(d for d in own if any(t[0] == f for t in own[d])) for f in have}
+                    if len(have) > 1:
+                        st['clash_lookups'] += 1
+                        ds = sorted(decl.values())
+                        if any(a not in _closure(sup, b) and b not in _closure(sup, a) for a in ds for b in ds if a < b):
+                            st['clash_lookups_across_branches'] += 1
+                    # (i) the views agree with each other: find is the first of that name in eAllStructuralFeatures()
+                    first = next(f for f in impl['feats'] if nm_of[f] == nm)
+                    if got != first:
+                        out.fail({'property': 'C19', 'clause': 'meta-find-vs-eAllStructuralFeatures', 'scenario': 'metaclash'},
+                                 f'K{c}.findEStructuralFeature({nm!r}) is K{decl[got]}.{nm} but the first {nm!r} of '
+                                 f'eAllStructuralFeatures() is K{decl[first]}.{nm} (super types {sup}) after {hist[-1]}', case)
+                        state['ok'] = False
+                        return
+                    # (ii) ... and with the declaration that attribute syntax / eGet / eSet by name use
+                    by_dfs = next(f for d in _dfs(sup, c) for (f, _, n2) in own[d] if n2 == nm)
+                    by_c3 = next(f for d in mro[c] for (f, _, n2) in own[d] if n2 == nm)
+                    lin = 'agree' if by_dfs == by_c3 else 'differ'
+                    if lin == 'differ':
+                        st['lin_differ'] += 1
+                    bad = probe(c, nm, got, where)
+                    if bad:
+                        out.fail({'property': 'C19', 'clause': 'meta-find-vs-attribute-syntax', 'linearisations': lin},
+                                 f'K{c}.findEStructuralFeature({nm!r}) is K{decl[got]}.{nm} ({kind[got][0]}) but on a fresh K{c} '
+                                 f'instance {bad} (declarations of {nm!r}: {[f"K{decl[f]}:{kind[f][0]}" for f in have]}, '
+                                 f'super types {sup}; depth-first and C3 order {lin}) after {hist[-1]}', case)
+                        if lin == 'agree':
+                            state['ok'] = False
+                            return
+
+        # initial graph: often two super types
+        for i in range(ncls):
+            for j in rng.sample(range(i + 1, ncls), min(ncls - i - 1, rng.choice([0, 1, 1, 2]))):
+                try_super(i, j)
+        for c in range(ncls):
+            for _ in range(rng.choice([0, 1, 1, 2])):
+                add_feature(c)
+        check_all('initial')
+        for step in range(rng.randrange(2, 9)):
+            if not state['ok']:
+                break
+            k = rng.choice(['add-super', 'add-super', 'remove-super', 'add-feature', 'add-feature', 'remove-feature'])
+            c = rng.randrange(ncls)
+            if k == 'add-super':
+                if not try_super(c, rng.randrange(ncls)):
+                    continue
+            elif k == 'remove-super':
+                if not sup[c]:
+                    continue
+                d = rng.choice(sup[c])
+                how = rng.choice(['remove', 'pop'])
+                if how == 'remove':
+                    classes[c].eSuperTypes.remove(classes[d])
+                else:
+                    classes[c].eSuperTypes.pop(sup[c].index(d))
+                sup[c].remove(d)
+                hist.append(['remove-super', c, d, how])
+            elif k == 'add-feature':
+                add_feature(c)
+            else:
+                if not own[c]:
+                    continue
+                t = rng.choice(own[c])
+                classes[c].eStructuralFeatures.remove(fobj[t[0]])
+                own[c].remove(t)
+                hist.append(['remove-feature', c, t[2]])
+            st['edits'] += 1
+            check_all(f'after edit {len(hist)}')
+        st['graphs'] += 1
+        if sample is None and state['ok'] and len(hist) > 6:
+            sample = {'scenario': 'metaclash', 'history': [list(h) for h in hist]}
+    if model is not None:
+        model.close()
+    out.coverage['metaclash_graphs'] = st['graphs']
+    out.coverage['metaclash_edits'] = st['edits']
+    out.coverage['metaclash_view_queries'] = st['queries']
+    out.coverage['metaclash_classes_compared_with_model'] = st['model_compared']
+    out.coverage['metaclash_lookups_of_a_name_declared_more_than_once'] = st['clash_lookups']
+    out.coverage['metaclash_lookups_clash_between_unrelated_classes'] = st['clash_lookups_across_branches']
+    out.coverage['metaclash_instance_probes'] = st['probes']
+    out.coverage['metaclash_lookups_where_c3_and_depth_first_differ'] = st['lin_differ']
+    out.coverage['metaclash_sample'] = sample
+
+
+def metaclash_script(case):
+    """literal replay of a class-graph history ([add-super c d] [remove-super c d how] [add-feature c name kind target]
+    [remove-feature c name]); prints what the views answer at the end; True if they disagree"""
+    from harness import common
+    common.use_repo()
+    from pyecore import ecore as E
+    hist = [h for h in case['history'] if h[0] != 'graph']
+    ncls = case.get('ncls') or next((h[2] for h in case['history'] if h[0] == 'graph'), None) or \
+        1 + max([max(h[1], h[2]) for h in hist if h[0].endswith('super')] + [h[1] for h in hist] + [h[4] for h in hist if h[0] == 'add-feature'])
+    classes = [E.EClass(f'K{i}') for i in range(ncls)]
+    own = {i: {} for i in range(ncls)}
+    for h in hist:
+        if h[0] == 'add-super':
+            classes[h[1]].eSuperTypes.append(classes[h[2]])
+        elif h[0] == 'remove-super':
+            classes[h[1]].eSuperTypes.remove(classes[h[2]])
+        elif h[0] == 'add-feature':
+            _, c, name, k, t = h
+            f = (E.EAttribute(name, E.EString) if k == 'str' else E.EAttribute(name, E.EInt) if k == 'int' else
+                 E.EAttribute(name, E.EString, upper=-1) if k == 'strs' else E.EReference(name, classes[t], upper=-1 if k == 'refs' else 1))
+            classes[c].eStructuralFeatures.append(f)
+            own[c][name] = (f, k, t)
+        elif h[0] == 'remove-feature':
+            classes[h[1]].eStructuralFeatures.remove(own[h[1]].pop(h[2])[0])
+        print(h)
+    where = {id(f): (c, k, t) for c in own for (f, k, t) in own[c].values()}
+    bad = 0
+    for c in ([case['class']] if 'class' in case else range(ncls)):
+        ec = classes[c]
+        allf = list(ec.eAllStructuralFeatures())
+        for nm in sorted({f.name for f in allf}):
+            found = ec.findEStructuralFeature(nm)
+            first = next(f for f in allf if f.name == nm)
+            d, k, t = where[id(found)]
+            line = f'K{c}: findEStructuralFeature({nm!r}) = K{d}.{nm} ({k}); first in eAllStructuralFeatures(): K{where[id(first)][0]}.{nm}'
+            if found is not first:
+                bad += 1
+                line += '  <-- DISAGREE'
+            print(line)
+            for wpath in ONE_IN:
+                for rpath in READS:
+                    o = ec()
+                    v = {'str': 'v', 'int': 7, 'strs': ['a', 'b']}.get(k) or ([classes[t]()] if k == 'refs' else classes[t]())
+                    try:
+                        if wpath == 'attr':
+                            setattr(o, nm, v)
+                        elif wpath == 'eSet-name':
+                            o.eSet(nm, v)
+                        else:
+                            o.eSet(found, v)
+                        got = getattr(o, nm) if rpath == 'attr' else o.eGet(nm) if rpath == 'eGet-name' else o.eGet(found)
+                        got = list(got) if k in ('strs', 'refs') else got
+                        res = None if (got == v and o.eIsSet(found) and o.eIsSet(nm)) else \
+                            f'read {got!r} through {rpath}, eIsSet(found)={o.eIsSet(found)}, eIsSet(name)={o.eIsSet(nm)}'
+                    except Exception as e:  # noqa
+                        res = f'raised {type(e).__name__}'
+                    if res:
+                        bad += 1
+                        print(f'   a fresh K{c}: storing {v!r} (a value of the found feature) through {wpath}: {res}  <-- DISAGREE')
+    if bad:
+        print('REPRODUCED: findEStructuralFeature disagrees with the other views')
+    return bad > 0
+
+
+_run3 = run
+
+
+def run(ctx, out):   # noqa: F811
+    _run3(ctx, out)
+    subtree_scenarios(ctx, out)
+    meta_clash_scenarios(ctx, out)
